@@ -12,6 +12,8 @@ mod eng_reader;
 mod eng_spec;
 mod eng_layout;
 mod eng_foreign;
+mod eng_device;
+mod eng_copy;
 
 use util::Sink;
 
@@ -24,6 +26,9 @@ fn exec_line(engine: &str, line: &str) -> String {
         "spec" => eng_spec::exec(line),
         "layout" => eng_layout::exec(line),
         "foreign" => eng_foreign::exec(line),
+        "device" => eng_device::exec(line),
+        "copy" | "tools" => eng_copy::exec(line),
+        "devdbg" => eng_device::debug_read_fault(line),
         _ => "BADENGINE".into(),
     }
 }
@@ -52,6 +57,9 @@ fn main() {
                 "spec" => eng_spec::generate(&mut sink, seed, thorough),
                 "layout" => eng_layout::generate(&mut sink, seed, thorough),
                 "foreign" => eng_foreign::generate(&mut sink, seed, thorough),
+                "device" => eng_device::generate(&mut sink, seed, thorough),
+                "copy" => eng_copy::generate(&mut sink, seed, thorough),
+                "tools" => eng_copy::generate_tools(&mut sink, seed, thorough),
                 _ => {
                     eprintln!("unknown engine {engine}");
                     std::process::exit(2);
